@@ -70,26 +70,21 @@ func (s *seriesIt) Next() bool {
 }
 
 func (s *seriesIt) Seek(t int64) bool {
-	l := 0
+	// Lower bound: the first sample at or after t, never moving backwards.
+	l := s.idx
+	if l < 0 {
+		l = 0
+	}
 	u := len(s.samples)
-	idx := int(0)
-	if t <= s.samples[0].TimestampMs {
-		s.idx = 0
-		return true
-	}
-	for u > l {
-		idx = (u + l) / 2
-		if s.samples[idx].TimestampMs == t {
-			l = idx
-			break
+	for l < u {
+		mid := int(uint(l+u) >> 1)
+		if s.samples[mid].TimestampMs < t {
+			l = mid + 1
+		} else {
+			u = mid
 		}
-		if s.samples[idx].TimestampMs < t {
-			l = idx + 1
-			continue
-		}
-		u = idx
 	}
-	s.idx = idx
+	s.idx = l
 	return s.idx < len(s.samples)
 }
 
